@@ -65,7 +65,7 @@ type CatSc struct {
 
 // inRecMsg is the message carried by record k of the in helper.
 func (s *CatSc) inRecMsg(k int64) []byte {
-	if s.Mix && k%23 == 11 {
+	if s.Mix && k%11 == 4 {
 		// a long sysex dump (a line of more than 4096 characters on the helper's output)
 		b := make([]byte, 0, 3002)
 		b = append(b, 0xF0)
